@@ -278,7 +278,8 @@ impl StatefulWidget for InputWidget {
     type State = InputState;
     fn render(self, area: Rect, buf: &mut Buffer, state: &mut Self::State) {
         let max_string_width = area.width as usize - 3;
-        let mut string: String = state.input.iter().collect();
+        // Work with characters, not bytes. The cursor position counts characters
+        let mut string: Vec<char> = state.input.clone();
         let mut start = string.len().saturating_sub(max_string_width);
         // Move start to the left to include the cursor
         if start > 0 && start + 5 > state.input_index {
@@ -286,17 +287,18 @@ impl StatefulWidget for InputWidget {
         }
         // Replace start with dots
         if start > 0 {
-            string = String::from("...") + &string[start + 3..];
+            let visible = string.split_off((start + 3).min(string.len()));
+            string = "...".chars().chain(visible).collect();
         }
         // Replace end with dots
-        if string.len() > area.width as usize - 3 {
-            string.truncate(max_string_width - 3);
-            string += "...";
+        if string.len() > max_string_width {
+            string.truncate(max_string_width.saturating_sub(3));
+            string.extend("...".chars());
         }
         // Draw prompt
         buf.set_stringn(area.x, area.y, "> ", area.width as usize, *helpers::YELLOW);
         // Draw input chars
-        for (i, c) in string.chars().enumerate() {
+        for (i, c) in string.iter().enumerate() {
             buf.set_stringn(
                 area.x + 2 + i as u16,
                 area.y,
